@@ -126,3 +126,30 @@ Proof. intros Hle. unfold py_get_violated_conditional. cbv zeta.
   - exists vio'. split; [reflexivity|]. intros k. rewrite Hv. split; [intros [[]|H]; exact H|auto].
   - exists vio'. split; [reflexivity|]. intros k. rewrite Hv, app_nil_r. split; [intros [[]|H]; exact H|auto].
 Qed.
+
+(* ---- exclude_violated: the blocking constraint ---- *)
+(* clauses (c \/ -h_k) for every clause c of every blocked conditional k, and one clause (h_1 \/ ... \/ h_m) *)
+Definition zexclude (sel:list (Z * list (list Z))) : list (list Z) :=
+  flat_map (fun hc => map (fun c => c ++ [(- fst hc)%Z]) (snd hc)) sel ++ [map fst sel].
+Definition clauses_of (nf:dict Z (list (list Z))) (k:Z) : list (list Z) := match zdict_find nf k with Some c => c | None => [] end.
+
+Theorem tie_exclude_violated n (pid:Z -> ctl Z unit unit) (hid:Z -> Z) (nf:dict Z (list (list Z))) (violated:list Z) :
+  (forall k, In k violated -> pid k = Return (hid k)) -> (forall k, In k violated -> zdict_find nf k <> None) ->
+  py_exclude_violated n pid nf tt violated = Return (zexclude (map (fun k => (hid k, clauses_of nf k)) violated)).
+Proof. intros Hpid Hnf. unfold py_exclude_violated. cbv zeta.
+  match goal with |- context [for_each violated ?b _] => set (body := b) end.
+  assert (G: forall l rc hv, (forall k, In k l -> pid k = Return (hid k) /\ zdict_find nf k <> None) ->
+             @for_each _ _ unit _ l body (rc, hv)
+             = Next (rc ++ flat_map (fun hc => map (fun c => c ++ [(- fst hc)%Z]) (snd hc)) (map (fun k => (hid k, clauses_of nf k)) l),
+                     hv ++ map fst (map (fun k => (hid k, clauses_of nf k)) l))).
+  { induction l as [|k l IH]; intros rc hv Hl; [cbn; rewrite !app_nil_r; reflexivity|].
+    cbn [for_each map flat_map fst snd]. unfold body at 1. rewrite (proj1 (Hl k (or_introl eq_refl))). cbn [call].
+    unfold zdict_get, clauses_of. destruct (zdict_find nf k) as [cls|] eqn:E; [|exfalso; apply (proj2 (Hl k (or_introl eq_refl))); exact E].
+    cbn [cbind].
+    assert (Ef: forall cl acc, fold_left (fun v_return_constraints v_clause => v_return_constraints ++ [v_clause ++ [(hid k * -1)%Z]]) cl acc
+                              = acc ++ map (fun c => c ++ [(- hid k)%Z]) cl).
+    { induction cl as [|c cl IHc]; intros acc; [cbn; rewrite app_nil_r; reflexivity|]. cbn [fold_left map]. rewrite IHc, <- app_assoc.
+      replace (hid k * -1)%Z with (- hid k)%Z by lia. reflexivity. }
+    rewrite Ef, IH by (intros k' Hk'; apply Hl; right; exact Hk').
+    rewrite <- !app_assoc. reflexivity. }
+  rewrite (G violated [] []) by (intros k Hk; split; [apply Hpid|apply Hnf]; exact Hk). cbn [cbind app]. reflexivity. Qed.
